@@ -98,6 +98,16 @@ Theorem C09_alive_status_needs_untraced : forall w c dur over w' same raw,
 Proof. exact alive_status_needs_untraced. Qed.
 Print Assumptions C09_alive_status_needs_untraced.
 
+(* a status query interrupted by a signal handler of the caller (EINTR) is reported as that error and leaves the handle
+   as it was -- still Running -- so that a later query reports the real cause; only ECHILD means "reaped by someone else" *)
+Theorem C09_interrupted_wait_is_error : forall p, pstep (mk p QWait) (RErrno EINTR) = (mk p QIdle, PRet (VErr EINTR)).
+Proof. exact interrupted_wait_is_error. Qed.
+Print Assumptions C09_interrupted_wait_is_error.
+
+Theorem C09_only_echild_means_reaped : forall p e, e <> ECHILD -> absorb p (RErrno e) = inr e.
+Proof. exact only_echild_means_reaped. Qed.
+Print Assumptions C09_only_echild_means_reaped.
+
 Example C09_nonvacuous :
   let w0 := {| pr := PAlive; exit_at := Some (5000000, 768); reap_at := None; dies_on_signal := false; pnow := 0; kills := [] |} in
   let p0 := {| cstate := Running; detached := false |} in
